@@ -87,6 +87,16 @@ def cases(tier):
                         yield {'k': 'gen', 'd': d, 'd2': d2, 'ws': [list(w) for w in ws], 'cpl': True}
                     if ws[0][1] >= 2 and all(w == ws[0] for w in ws):
                         yield {'k': 'gen', 'd': d, 'd2': d2, 'ws': [list(w) for w in ws], 'same': True}
+    if q:
+        # more coordinates than modes (d = 3, two modes), with and without reweighting
+        for d2 in (1, 3):
+            for m in (6, 9):
+                for ws in ([(0, 2), (2, 2)], [(1, 2), (3, 3)]):
+                    for bg in (True, False):
+                        for rw in (False, True):
+                            for ro in ('eigenfunctionevals', 'eigentensors'):
+                                yield {'k': 'amuset', 'd': 3, 'd2': d2, 'm': m, 'ws': [list(w) for w in ws], 'b': bg, 'rw': rw,
+                                       'rel': False, 'mr': 'inf', 'nev': 'inf', 'ro': ro}
     for d in ((1, 2) if q else (1, 2, 3)):
         for d2 in (1, 2, 3):
             for m in ((4, 6, 9) if q else (4, 6, 9, 12)):
